@@ -55,6 +55,54 @@ func runHist(h []int, _ json.RawMessage) (out xplore.Out) {
 	ref := chainlab.NewRef(W)
 	viol := func(key, what string) { out.Viols = append(out.Viols, xplore.Viol{Key: key, What: what}) }
 	lastKind := "init"
+	check := func(lastKind string) {
+		// oracle on the state reached (every state of the search is the end of some history)
+		best := in.Node.Chain.BestBlockHeader()
+		bestHash := best.Hash()
+		bi := W.Index(bestHash)
+		rb := ref.Best()
+		out.Checks++
+		if bi != rb {
+			viol("best-differs-from-fork-choice-after-"+lastKind, fmt.Sprintf("node best=%s, fork choice=%s (%s)", W.Name(bestHash), W.Names[rb], ref.Summary()))
+		}
+		if bi >= 0 {
+			// height index: every height up to best maps to best's ancestor
+			anc := map[uint64]int{}
+			for x := bi; x >= 0; x = W.Parent[x] {
+				anc[W.Blocks[x].Height] = x
+			}
+			for ht := uint64(0); ht <= best.Height; ht++ {
+				out.Checks++
+				hd, err := in.Node.Chain.GetHeaderByHeight(ht)
+				if err != nil {
+					viol("height-index-missing", fmt.Sprintf("height %d <= best height %d has no main-chain entry: %v", ht, best.Height, err))
+					continue
+				}
+				if hh := hd.Hash(); hh != W.Blocks[anc[ht]].Hash() {
+					viol("height-index-wrong-block", fmt.Sprintf("height %d maps to %s, best's ancestor is %s", ht, W.Name(hh), W.Names[anc[ht]]))
+				}
+			}
+			for i := range W.Blocks {
+				if !in.Stored(i) {
+					continue
+				}
+				out.Checks++
+				want := W.IsAncestor(i, bi)
+				got := in.Node.Chain.InMainChain(W.Blocks[i].Hash())
+				if got != want {
+					key := "inmainchain-false-for-ancestor"
+					if got {
+						key = "inmainchain-true-for-non-ancestor"
+						if W.Blocks[i].Height > best.Height {
+							key = "inmainchain-true-above-best-height"
+						}
+					}
+					viol(key, fmt.Sprintf("InMainChain(%s)=%v but best=%s", W.Names[i], got, W.Names[bi]))
+				}
+			}
+		}
+	}
+	check(lastKind)
 	for step, ei := range h {
 		res := in.Apply(ei)
 		ref.Apply(ei)
@@ -72,52 +120,12 @@ func runHist(h []int, _ json.RawMessage) (out xplore.Out) {
 		default:
 			lastKind = "block"
 		}
+		// the oracle runs after EVERY event of the replay: reads populate the store's caches, so an index entry
+		// that is only stale in a cache (read before a reorganisation, not invalidated by it) is seen as well
+		check(lastKind)
 	}
-	// oracle on the state reached (every state of the search is the end of some history)
 	best := in.Node.Chain.BestBlockHeader()
 	bestHash := best.Hash()
-	bi := W.Index(bestHash)
-	rb := ref.Best()
-	out.Checks++
-	if bi != rb {
-		viol("best-differs-from-fork-choice-after-"+lastKind, fmt.Sprintf("node best=%s, fork choice=%s (%s)", W.Name(bestHash), W.Names[rb], ref.Summary()))
-	}
-	if bi >= 0 {
-		// height index: every height up to best maps to best's ancestor
-		anc := map[uint64]int{}
-		for x := bi; x >= 0; x = W.Parent[x] {
-			anc[W.Blocks[x].Height] = x
-		}
-		for ht := uint64(0); ht <= best.Height; ht++ {
-			out.Checks++
-			hd, err := in.Node.Chain.GetHeaderByHeight(ht)
-			if err != nil {
-				viol("height-index-missing", fmt.Sprintf("height %d <= best height %d has no main-chain entry: %v", ht, best.Height, err))
-				continue
-			}
-			if hh := hd.Hash(); hh != W.Blocks[anc[ht]].Hash() {
-				viol("height-index-wrong-block", fmt.Sprintf("height %d maps to %s, best's ancestor is %s", ht, W.Name(hh), W.Names[anc[ht]]))
-			}
-		}
-		for i := range W.Blocks {
-			if !in.Stored(i) {
-				continue
-			}
-			out.Checks++
-			want := W.IsAncestor(i, bi)
-			got := in.Node.Chain.InMainChain(W.Blocks[i].Hash())
-			if got != want {
-				key := "inmainchain-false-for-ancestor"
-				if got {
-					key = "inmainchain-true-for-non-ancestor"
-					if W.Blocks[i].Height > best.Height {
-						key = "inmainchain-true-above-best-height"
-					}
-				}
-				viol(key, fmt.Sprintf("InMainChain(%s)=%v but best=%s", W.Names[i], got, W.Names[bi]))
-			}
-		}
-	}
 	out.Digest = in.Digest()
 	out.Outcome = fmt.Sprintf("best=%s", W.Name(bestHash))
 	// successors: every event not yet used
